@@ -22,6 +22,7 @@ class Branch:
     cases: list   = field(default_factory = list)  # list of case IDs
     types: list   = field(default_factory = list)  # list of case types
     nodes: dict   = field(default_factory = dict)  # number of node definitions
+    indent: int   = 0                              # indentation of the clause keywords of this branch
     
 @dataclass
 class BranchingList:
@@ -48,13 +49,13 @@ class BranchingList:
         branch_id = self._get_branch_id()
         return self.branches[branch_id].cases[-1]
         
-    def _open_branch(self, case_id):
+    def _open_branch(self, case_id, indent=0):
         """ Start a new branch
         """
         self.num_branches += 1        
         branch_id = f"{Sign.CONDITION}{self.num_branches}"
         self.state.append(branch_id)
-        self.branches[branch_id] = Branch([case_id], [Keyword.CASE])
+        self.branches[branch_id] = Branch([case_id], [Keyword.CASE], indent=indent)
         return 0  # branch_part
     
     def _switch_case(self, case_id, case_type):
@@ -79,17 +80,34 @@ class BranchingList:
         self.num_cases += 1
         return self.num_cases
     
-    def false_case(self):
-        """ Checks if case value is false
+    def close_ended(self, indent, clause=False):
+        """ Close branches that end in front of a line with the given indentation
+
+        A clause ends at a line indented no deeper than its keyword; a clause keyword
+        (clause=True) at the same indentation continues the branch instead.
         """
-        if not self.state:
-            return False
-        # count number of true cases
-        branch = self._get_branch_id()
-        num_true = sum([self.cases[c].value==True for c in self.branches[branch].cases])
-        # only first `true` case is valid
-        case = self._get_case_id()
-        return num_true!=1 or self.cases[case].value == False
+        while self.state:
+            branch = self.branches[self.state[-1]]
+            if indent<branch.indent or (indent==branch.indent and not clause):
+                self._close_branch()
+            else:
+                break
+
+    def false_case(self, indent=None):
+        """ Checks if a line lies in a clause that is not selected
+
+        :param int indent: indentation of a clause keyword; its own branch is not counted
+        """
+        for branch_id in self.state:
+            branch = self.branches[branch_id]
+            if indent is not None and branch.indent==indent:
+                continue
+            # only first `true` case is valid
+            num_true = sum([self.cases[c].value==True for c in branch.cases])
+            case = branch.cases[-1]
+            if num_true!=1 or self.cases[case].value == False:
+                return True
+        return False
         
     def solve_case(self, node):
         """ Manage condition nodes
@@ -98,34 +116,22 @@ class BranchingList:
         """
         if m := re.match(f"(.*{Sign.CONDITION})([0-9]+)$", node.name):
             path_new = m.group(1)
-            path_old = ''
-            if self.state:
-                id_old = self._get_case_id()
-                path_old = self.cases[id_old].path
+            # branches are delimited by indentation: deeper ones end here
+            self.close_ended(node.indent, clause=True)
+            same = bool(self.state) and self.branches[self.state[-1]].indent==node.indent
+            case_id = fr"{Sign.CONDITION}{m.group(2)}"
             if node.case_type==Keyword.CASE:
-                pass
-            elif node.case_type==Keyword.ELSE and self.cases:
-                pass
-            elif node.case_type==Keyword.END and self.cases and path_old==path_new:
+                if same:                # next case of the same branch
+                    branch_part = self._switch_case(case_id, node.case_type)
+                else:                   # new branch
+                    branch_part = self._open_branch(case_id, node.indent)
+            elif node.case_type==Keyword.ELSE and same:
+                branch_part = self._switch_case(case_id, node.case_type)
+            elif node.case_type==Keyword.END and same:
                 self._close_branch()
                 return
             else:
                 raise Exception(f"Invalid condition:", node.code)
-            case_id = fr"{Sign.CONDITION}{m.group(2)}"
-            if path_new==path_old:  # same branch
-                branch_part = self._switch_case(case_id, node.case_type)
-            elif path_new<path_old: # lower branch
-                # close openned branches unitil the same branch is reached
-                while path_new!=path_old:
-                    self._close_branch()
-                    if self.state:
-                        id_old = self._get_case_id()
-                        path_old = self.cases[id_old].path
-                    else:
-                        path_old = ''
-                branch_part = self._switch_case(case_id, node.case_type)
-            else:                   # new branch
-                branch_part = self._open_branch(case_id)
             branch_id = self._get_branch_id()
             self.cases[case_id] = Case(
                 path        = path_new,          # path of a new case
@@ -147,9 +153,6 @@ class BranchingList:
         """
         if not self.state: # outside of any condition
             return
-        case = self._get_case_id()
-        if not node.name.startswith(self.cases[case].path): # ending case at lower indent
-            self._close_branch()
         if self.state:
             node.branch_id = self._get_branch_id()
             node.case_id   = self._get_case_id()
